@@ -115,7 +115,7 @@ class Env:
         return self.fields[key]
 
 
-def _make_eq(spec):
+def _make_eq(spec, env=None):
     from pde import PDE, CahnHilliardPDE, DiffusionPDE, SwiftHohenbergPDE
 
     kind = spec[0]
@@ -125,6 +125,10 @@ def _make_eq(spec):
         return CahnHilliardPDE(interface_width=spec[1], bc_c=BCS[spec[2]], bc_mu=BCS[spec[3]])
     if kind == "sh":
         return SwiftHohenbergPDE(rate=0.1, kc2=spec[1], bc=BCS[spec[2]], bc_lap=BCS[spec[3]])
+    if kind == "pdeuf":  # several equations share ONE user_funcs dict object (as a user would naturally do)
+        if not hasattr(env, "user_funcs"):
+            env.user_funcs = {"f": lambda x: 2 * x}
+        return PDE({"c": spec[1]}, bc=BCS[spec[2]], user_funcs=env.user_funcs)
     if kind == "pde":
         kw = {}
         if len(spec) > 3 and spec[3]:
@@ -168,7 +172,7 @@ def execute(req, env: Env):
             _, eqid, gid, backend = req
             key = eqid
             if key not in env.eqs:
-                env.eqs[key] = _make_eq(EQS[eqid.split("#")[0]])
+                env.eqs[key] = _make_eq(EQS[eqid.split("#")[0]], env)
             eq = env.eqs[key]
             state = env.field(gid)
             if kind == "rate":
@@ -254,6 +258,7 @@ EQS = {
     "p_ops": ["pde", "laplace(c) + d_dx(c)", "v0", {"c:laplace": "d0"}],
     "p_ops2": ["pde", "laplace(c) + d_dx(c)", "d0", {"c:laplace": "v0"}],
     "p_k1": ["pde", "k*laplace(c)", "v0", None, {"k": 1.0}], "p_k2": ["pde", "k*laplace(c)", "v0", None, {"k": 2.0}],
+    "p_uf_v0": ["pdeuf", "laplace(c) + f(c)", "v0"], "p_uf_d0": ["pdeuf", "laplace(c) + f(c)", "d0"],
     "p_lap2": ["pde", "laplace(laplace(c))", "v0"], "p_lap2d": ["pde", "laplace(laplace(c))", "d0"],
 }
 EXPRS = {
@@ -326,7 +331,7 @@ def alphabet(family, tier):
                 reqs.append(["mkop", "D", "laplace", bc, "scipy", 0])
     elif family == "pde":
         for eqid in (EQS if not quick else ["dv0", "dd0", "dc0", "dv1", "dm1", "dm1b", "ch_vd", "ch_dv", "ch_cd", "sh_vd", "sh_dv", "p_v0",
-                                              "p_d0", "p_ops", "p_ops2", "p_k1", "p_k2"]):
+                                              "p_d0", "p_ops", "p_ops2", "p_k1", "p_k2", "p_uf_v0", "p_uf_d0"]):
             reqs.append(["rate", eqid, "A", "numpy"])
             reqs.append(["rhs", eqid, "A", "numba"])
         for eqid in ("dv0", "dd0", "ch_vd", "ch_dv", "p_v0", "p_ops", "p_k1", "p_k2")[:: 2 if quick else 1]:
